@@ -11,8 +11,11 @@ every board and every bound configuration:
   _copy_with_update(previous, update): the result is previous without the excluded positions (order kept),
       followed by the appended blocks; its length is len(previous) - #excluded + #appended; with
       use_deepcopy the kept blocks are copies; previous itself is only read.
-Connectivity of the new blocks (split_block's two-seed BFS, _is_connected) rests on sets, dicts, deque and
-recursion outside the subset: by contract here (split_block returns two non-empty parts whose sizes add up;
+  split_block(block): the contract `candidates` uses (two non-empty parts whose sizes add up to len(block)) is
+      discharged on the real function (harness split_block_parts): seeds distinct on leaving the draw loop, every
+      cell appended to exactly one part, the seeds' own cells to different parts.  Only the nested bfs is by contract.
+Connectivity of the new blocks (the nested bfs of split_block, _is_connected) rests on sets, dicts, deque and
+recursion outside the subset: by contract here (bfs returns a table over the block that is 0 exactly at the seed;
 _is_connected returns a bool), decided exhaustively on small boards by the bounded tier.
 Ghost view of `current`: SIZE(i) = number of cells of block i, BID(y, x) = index of the block containing (y, x).
 """
@@ -322,3 +325,107 @@ def copy_with_update(case):
         q = fresh_int("q")
         requires(And(q >= 0, q < na))
         check("appended-blocks-follow-in-order", same(interp().getitem(r, kept + q), SRef(_z3.IntVal(6000000) + q.t)))
+
+
+# ------------------------------------------------------------------------------------------------ split_block
+class Dist(GhostVal):
+    """the dict returned by the nested bfs(seed): DIST(which, position of the cell in `block`)"""
+    pv_pytype = "dict"
+
+    def __init__(self, fn, which, n):
+        self.fn, self.which, self.n = fn, which, n
+
+    def pv_getitem(self, cell):
+        if not (isinstance(cell, tuple) and cell and cell[0] == "cell"):
+            raise OutOfSubset("distance table asked for something that is not a cell of the block")
+        return SInt(self.fn(_zint(self.which), _zint(cell[1])))
+
+
+class Cells(GhostVal):
+    """`block`: n pairwise distinct cells, each identified by its position in the list"""
+    pv_pytype = "list"
+    pv_indexed = True
+
+    def __init__(self, n):
+        self.n = n
+
+    def pv_len(self):
+        return self.n
+
+    def pv_getitem(self, i):
+        if not bool((i >= 0) & (i < self.n)):
+            raise PyRaise(IndexError("list index out of range"))
+        return ("cell", i)
+
+    def pv_iter(self):
+        return self
+
+
+@harness("C18")
+def split_block_parts(case):
+    """discharges the contract `candidates` relies on: for a block of n >= 2 distinct cells split_block returns two
+    lists whose lengths add up to n and are both >= 1 (the cell of seed_a goes to the first part, that of seed_b to the
+    second), every cell of the block going to exactly one part in block order.  The nested bfs is taken by contract:
+    a table defined on every cell of the block with distance 0 exactly at the seed and >= 0 elsewhere (needs a connected
+    block and the breadth-first search itself: sets, dict and deque, outside the subset; bounded tier)."""
+    if CTX.mode != "sym":
+        return
+    n = sint("n")
+    requires(n >= 2)
+    block = Cells(n)
+    DIST = _z3.Function("DIST", I, I, I)
+    seeds = []
+
+    def bfs(it, a, k):
+        s = a[0]
+        if not (isinstance(s, tuple) and s[0] == "cell"):
+            raise OutOfSubset("bfs seed is not a cell of the block")
+        which = len(seeds)
+        seeds.append(s[1])
+        return Dist(DIST, which, n)
+
+    def dist_fact(which, pos):
+        d = DIST(_zint(which), _zint(pos))
+        assume_fact(mk_bool(_z3.And(d >= 0, (d == 0) == (_zint(pos) == _zint(seeds[which])))))
+
+    use_contract(SEG + "::split_block.<locals>.bfs", bfs)
+    SB = SEG + "::split_block"
+    loop_spec(SB, 0, inv=lambda ns: [], modifies=[], types={"seed_a": "int", "seed_b": "int"})
+    def head(ns):
+        dist_fact(0, ns.idx)
+        dist_fact(1, ns.idx)
+        return (length(ns.block_a), length(ns.block_b))
+
+    def end(ns, tok):
+        la, lb = tok
+        check("every-cell-goes-to-exactly-one-part",
+              Or(And(length(ns.block_a) == la + 1, length(ns.block_b) == lb), And(length(ns.block_a) == la, length(ns.block_b) == lb + 1)))
+
+    def inv(ns):
+        sa, sb = ns.seed_a, ns.seed_b
+        return [length(ns.block_a) + length(ns.block_b) == ns.idx,
+                implies(sa < ns.idx, length(ns.block_a) >= 1),
+                implies(sb < ns.idx, length(ns.block_b) >= 1)]
+
+    last = 1   # loops of nested functions are not counted
+    loop_spec(SB, last, inv=inv, modifies=["block_a", "block_b"], types={"block_a": "list:ref", "block_b": "list:ref", "b": "opaque", "da": "int", "db": "int"},
+              at_head=head, at_end=end)
+    with override_global(SEG, "srandom", _rand_module()), override_global(SEG, "set", HostFn(lambda it, a, k: Opaque("block_set"), "set", raw=True)):
+        o = call(REAL(SEG, "split_block"), block)
+    check("no-exception", not o.raised)
+    ra, rb = item(o.value, 0), item(o.value, 1)
+    check("sizes-add-up", length(ra) + length(rb) == n)
+    check("first-part-not-empty", length(ra) >= 1)
+    check("second-part-not-empty", length(rb) >= 1)
+
+
+def _rand_module():
+    from pyvc.values import HostModule
+
+    def randint(it, a, k):
+        lo, hi = a
+        r = fresh_int("rand")
+        requires(And(r >= lo, r <= hi))
+        return r
+
+    return HostModule("srandom", {"randint": HostFn(randint, "srandom.randint", raw=True)})
